@@ -14,7 +14,8 @@ class SourceError(Exception):
 class Repo:
     """AST view of /repo/selfies, re-read on every construction (nothing cached across runs)."""
 
-    def __init__(self, root=None):
+    def __init__(self, root=None, overlay=None):
+        """overlay: {relpath: source text} replacing files in memory (canary edits); nothing is written to disk"""
         self.root = root or REPO
         self.modules = {}      # relpath -> ast.Module
         self.text = {}
@@ -28,6 +29,8 @@ class Repo:
                     p = os.path.join(dp, f)
                     rel = os.path.relpath(p, self.root)
                     src = open(p).read()
+                    if overlay and rel in overlay:
+                        src = overlay[rel]
                     self.text[rel] = src
                     tree = ast.parse(src, filename=p)
                     self.modules[rel] = tree
